@@ -109,25 +109,31 @@ def concrete_values(tree, anns, sp, constraints=()):
     return M
 
 
+def _alternatives(t):
+    """The plain trees a tree with set operations stands for: union / widen = either operand, intersection(A, A) = A.
+    Each alternative is evaluated per assignment, so values stay correlated with the rest of the expression (taking all
+    combinations of the operand's value set and the sibling's value set would invent values that cannot occur together)."""
+    if not isinstance(t, tuple):
+        return [t]
+    if t[0] in SETOPS:
+        if t[0] == "intersection":
+            return _alternatives(t[1])
+        return _alternatives(t[1]) + _alternatives(t[2])
+    if not _has_setop(t):
+        return [t]
+    outs = [[]]
+    for c in t[1:]:
+        alts = _alternatives(c) if isinstance(c, tuple) else [c]
+        outs = [o + [a] for o in outs for a in alts]
+    return [(t[0], *o) for o in outs]
+
+
 def _ev_sets(t, sp, M):
-    """Set of concrete values of t over the admissible assignments; union/widen = union of sides, intersection = common values."""
-    if isinstance(t, tuple) and t[0] in SETOPS:
-        a, b = _ev_sets(t[1], sp, M), _ev_sets(t[2], sp, M)
-        return (a & b) if t[0] == "intersection" else (a | b)
-    if _has_setop(t):
-        # binary node over set-valued children: all combinations
-        kids = [_ev_sets(c, sp, M) if isinstance(c, tuple) else c for c in t[1:]]
-        n = ir.width(_plain(t[1]))
-        out = set()
-        for x in kids[0]:
-            for y in kids[1]:
-                if t[0] in ir.BV_CMP:
-                    out.add(bool(ir.bv_cmp(t[0], x, y, n)))
-                else:
-                    out.add(ir.bv_binop(t[0], x, y, n))
-        return out
-    vals = sp.ev(t)[M]
-    return set(np.unique(vals).tolist())
+    """Set of concrete values of t over the admissible assignments."""
+    out = set()
+    for alt in _alternatives(t):
+        out |= set(np.unique(sp.ev(alt)[M]).tolist())
+    return out
 
 
 def _plain(t):
